@@ -5,6 +5,7 @@ import json
 from fractions import Fraction
 
 from monitors.lib import (
+    degenerate_system,
     TOL,
     Env,
     Gen,
@@ -39,7 +40,20 @@ def _dy(r):
 # ----------------------------------------------------------------------------------------------
 # C11 behaviour membership / emptiness
 # ----------------------------------------------------------------------------------------------
+# pinned witnesses (repaired, 2528aca): feasible systems without interior that the solver, run with feasibility tolerances of
+# 1e-10, called infeasible - an equality with a large constant, three regions meeting in the point (-4,-4), three consistent
+# equalities in two unknowns (60, 50), two regions meeting in the point (2, 0, 5)
+PINNED_C11 = [
+    {"op": "empty", "terms": [[{"x": 49.0, "y": 7000.0}, 700980.0], [{"x": -49.0, "y": -7000.0}, -700980.0]], "margin": 0, "degenerate": "pinned"},
+    {"op": "empty", "terms": [[{"x": -7.0}, 28.0], [{"x": -929.0, "y": 1000.0}, -284.0], [{"x": 492.0, "y": -1.0}, -1964.0]], "margin": 0, "degenerate": "pinned"},
+    {"op": "empty", "terms": [[{"x": 68.0, "y": -38.0}, 2180.0], [{"x": -68.0, "y": 38.0}, -2180.0], [{"x": 3.0, "y": 67.0}, 3530.0], [{"x": -3.0, "y": -67.0}, -3530.0], [{"x": 54.0, "y": -30.0}, 1740.0], [{"x": -54.0, "y": 30.0}, -1740.0]], "margin": 0, "degenerate": "pinned"},
+    {"op": "empty", "terms": [[{"z": -1.0}, -5.0], [{"x": 0.75, "z": -1000.0}, -4998.5], [{"x": -100.0, "y": 1.0, "z": 10.0}, -150.0], [{"y": 1.0, "z": 1.0}, 5.0], [{"y": -1.0, "z": 1.0}, 5.0]], "margin": 0, "degenerate": "pinned"},
+]
+
+
 def c11_build(seed, tier):
+    if seed % 1000003 < len(PINNED_C11):
+        return json.loads(json.dumps(PINNED_C11[seed % 1000003]))
     g = Gen(seed)
     r = g.r
     names = ["x", "y", "z", "w"][: r.randint(1, 4)]
@@ -62,6 +76,11 @@ def c11_build(seed, tier):
         if r.random() < 0.2:
             pt["extra"] = 1.0
         return {"op": "contains", "terms": tl_data(terms), "point": pt}
+    if r.random() < 0.12:
+        # feasible systems without interior (equalities with large constants, n+1 consistent equalities in n unknowns, regions
+        # meeting in one point): a solver run with very tight tolerances calls them infeasible
+        kind, ts, pt = degenerate_system(g, names)
+        return {"op": "empty", "terms": tl_data(ts), "margin": 0, "degenerate": kind}
     margin = r.choice([0, 1, 0.5, 1e-3, -1e-3, -1, -0.5])
     v = names[0]
     base = [g.term(names, 1, 3) for _ in range(r.randint(0, 3))]
@@ -134,7 +153,16 @@ def c11_case(seed, tier):
 # ----------------------------------------------------------------------------------------------
 # C12 optimisation
 # ----------------------------------------------------------------------------------------------
+# pinned witness (repaired, 2528aca): three consistent equalities in two unknowns, behaviour (716, -979) - with feasibility
+# tolerances of 1e-10 the solver called the system infeasible, with and without presolve: ValueError from optimize
+PINNED_C12 = [
+    {"op": "optimize", "c": {"in": [], "out": ["x", "y"], "a": [], "g": [[{"x": 482.0, "y": -872.0}, 1198800.0], [{"x": -482.0, "y": 872.0}, -1198800.0], [{"x": -747.0, "y": -393.0}, -150105.0], [{"x": 747.0, "y": 393.0}, 150105.0], [{"x": -290.0, "y": 38.0}, -244842.0], [{"x": 290.0, "y": -38.0}, 244842.0]]}, "objective": {"x": 1}, "maximize": True, "spelling": 0},
+]
+
+
 def c12_build(seed, tier):
+    if seed % 1000003 < len(PINNED_C12):
+        return json.loads(json.dumps(PINNED_C12[seed % 1000003]))
     g = Gen(seed)
     r = g.r
     ins = ["i%d" % k for k in range(r.randint(1, 2))]
@@ -149,6 +177,11 @@ def c12_build(seed, tier):
     elif u < 0.08:
         c = type(c)(g.PTL([]), c.g, c.inputvars, c.outputvars, simplify=False)
     names = ins + outs
+    if 0.08 <= u < 0.14:
+        # guarantees that pin the behaviours down to a set without interior (see degenerate_system): the optimum exists
+        kind, ts, pt = degenerate_system(g, names, r.choice(["redundant_equalities", "equality", "touching"]))
+        c = type(c)(g.PTL([]), g.PTL(ts), [g.Var(n) for n in ins], [g.Var(n) for n in outs] + [g.Var(n) for n in sorted({v.name for t in ts for v in t.vars} - set(names))], simplify=False)
+        names = [v.name for v in c.inputvars + c.outputvars]
     k = r.randint(1, min(3, len(names)))
     obj = {n: r.choice([-3, -2, -1, 1, 2, 3]) for n in r.sample(names, k)}
     return {"op": "optimize", "c": contract_data(c), "objective": obj, "maximize": r.random() < 0.5, "spelling": r.randint(0, 2)}
@@ -455,6 +488,18 @@ def c17_build(seed, tier):
     B = _alts(g, names, r.randint(1, 3), r.choice(kinds))
     pt = {n: float(_dy(r)) for n in names}
     what = r.choice(["contains", "le", "merge", "construct"])
+    if len(names) >= 2 and r.random() < 0.1:
+        # two alternatives that share exactly their common boundary (a constant of 1e5..1e6) or exactly one point
+        kind, ts, pt0 = degenerate_system(g, names, r.choice(["halfplanes", "touching"]))
+        half = len(ts) // 2
+        A = [g.PTL(ts[:half]), g.PTL(ts[half:])]
+        pt = {n: pt0.get(n, 0.0) for n in names}
+        what = r.choice(["construct", "le", "merge"])
+        if what == "le":
+            # the left union reduced to the common part, against a right side the common point is outside of
+            A = [g.PTL(ts)]
+            n0 = sorted(pt0)[0]
+            B = [g.PTL(g.bounds(n0, None, pt0[n0] - 1))]
     if what == "construct" and len(names) >= 2 and r.random() < 0.3:
         # alternatives over SEPARATE variables: two feasible ones always share a behaviour, an infeasible one shares none
         lo, hi = r.randint(-3, 3), r.randint(-3, 3)
